@@ -9,8 +9,8 @@
    the bytes fed since then, as defined by HMAC.tla / Poly1305.tla / Blake2.tla / Hashes.tla. *)
 EXTENDS HMAC, Poly1305, Json, IOUtils
 Rec == ndJsonDeserialize(IOEnv.TRACE)
-VARIABLES hi, l, st, ok
-vars == <<hi, l, st, ok>>
+VARIABLES hi, l, st, ok, res      \* res: the specification's answer for the event just consumed (evaluated once per step)
+vars == <<hi, l, st, ok, res>>
 Has(r, f) == f \in DOMAIN r
 V(b) == [k |-> "v", v |-> b]
 N == [k |-> "n", v |-> <<>>]
@@ -58,15 +58,15 @@ Apply(h, s, e) ==
        [] e.op = "output_bits" -> [st |-> s, outs |-> {V(<<(OutBytes(h) * 8) \div 256, (OutBytes(h) * 8) % 256>>)}]
        [] e.op = "block_size" -> [st |-> s, outs |-> {V(<<BlockSize(h.alg)>>)}]
 
-Init == hi \in 1..Len(Rec) /\ l = 1 /\ st = Fresh(Rec[hi]) /\ ok = TRUE
+Init == hi \in 1..Len(Rec) /\ l = 1 /\ st = Fresh(Rec[hi]) /\ ok = TRUE /\ res = <<>>
 Step == /\ ok /\ l <= Len(Rec[hi].ev)
+        /\ res' = Apply(Rec[hi], st, Rec[hi].ev[l])
         /\ LET h == Rec[hi]
                e == h.ev[l]
-               r == Apply(h, st, e)
-               good == \E o \in r.outs : e.out.k = o.k /\ e.out.v = o.v
-           IN /\ st' = IF good THEN r.st ELSE st
+               good == \E o \in res'.outs : e.out.k = o.k /\ e.out.v = o.v
+           IN /\ st' = IF good THEN res'.st ELSE st
               /\ ok' = good
-              /\ IF good THEN TRUE ELSE PrintT(ToJson(<<"BAD", h.id, l, CHOOSE o \in r.outs : o.k # "p" \/ r.outs = {P}, e.out>>))
+              /\ IF good THEN TRUE ELSE PrintT(ToJson(<<"BAD", h.id, l, CHOOSE o \in res'.outs : o.k # "p" \/ res'.outs = {P}, e.out>>))
               /\ IF good /\ l = Len(h.ev) THEN PrintT(ToJson(<<"DONE", h.id, l>>)) ELSE TRUE
         /\ l' = l + 1 /\ UNCHANGED hi
 Spec == Init /\ [][Step]_vars
